@@ -1,4 +1,5 @@
 pub mod auth;
+pub mod data;
 pub mod beh;
 pub mod edit;
 pub mod eq;
@@ -28,6 +29,7 @@ pub fn run_case(case: &Value, f: &mut Fails) -> Result<(), String> {
 		Some("authbeh") => beh::run_auth(case, f),
 		Some("rel") => rel::run_rel(case, f),
 		Some("suffix") => rel::run_suffix(case, f),
+		Some("data") => data::run(case, f),
 		Some("ref") => refs::run(case, f),
 		Some(k) => return Err(format!("unknown case kind {k}")),
 		None => return Err("case without kind".into()),
